@@ -2344,17 +2344,16 @@ impl Server {
 
     fn remove_backend(&mut self, req_id: &str, backend: &RemoveBackend) -> WorkerResponse {
         let address = backend.address.into();
-        // Runtime removal is address-keyed and drops every backend at this
-        // address (A/B test, weighted variant, dedup race). The metrics
+        // Runtime removal is keyed by (backend_id, address), like the
+        // configuration state: a second backend of the cluster on the same
+        // address (A/B test, weighted variant) keeps serving. The metrics
         // layer is id-keyed — fan out one `remove_backend` per actually-
-        // removed id so the two identities stay in sync. Without this the
-        // `backend_id` field on the IPC message could name "A" while the
-        // runtime dropped both "A" and "B" at the same address, leaving
-        // "B"'s metrics rows orphaned forever.
-        let removed_ids = self
-            .backends
-            .borrow_mut()
-            .remove_backend(&backend.cluster_id, &address);
+        // removed id so the two identities stay in sync.
+        let removed_ids = self.backends.borrow_mut().remove_backend(
+            &backend.cluster_id,
+            &backend.backend_id,
+            &address,
+        );
         if removed_ids.is_empty() {
             // Edge case: BackendList returned nothing (address never
             // existed in this cluster). Honour the request's stated id
